@@ -76,6 +76,8 @@ pub fn mtypes() -> Vec<MType> {
                 pru(0, 256, false),
                 pru(10, 256, false),
                 pru(0, 300, true),
+                pru(0, 10, false),
+                pru(11, 100, true),
             ],
             max_len_quick: 4,
             max_len_thorough: 5,
@@ -107,6 +109,9 @@ pub fn mtypes() -> Vec<MType> {
                 pr(-128, -128, true, I8),
                 pru(0, 200, true),
                 pru(2, 127, true),
+                pru(0, 5, true),
+                pru(3, 100, false),
+                Pat::Int(5, None),
             ],
             max_len_quick: 4,
             max_len_thorough: 5,
@@ -150,6 +155,9 @@ pub fn mtypes() -> Vec<MType> {
                 pr(0, i32::MAX as i128, false, I32),
                 pru(0, 2147483648, false),
                 Pat::Int(2147483648, None),
+                pru(0, 1000, true),
+                pru(1001, 2147483647, true),
+                pru(5, 100000, false),
             ],
             max_len_quick: 4,
             max_len_thorough: 5,
@@ -168,6 +176,9 @@ pub fn mtypes() -> Vec<MType> {
                 pr(0, 1i128 << 63, false, U64),
                 pr(1i128 << 63, u64::MAX as i128, true, U64),
                 pr((1i128 << 63) + 1, u64::MAX as i128, true, U64),
+                pru(0, 1i128 << 63, false),
+                pru(1, 1000, true),
+                Pat::Int(0, None),
             ],
             max_len_quick: 4,
             max_len_thorough: 5,
